@@ -59,6 +59,8 @@ PREFIXES = [
     'T154N-R97W Sec 14: N/2N/2NE/4 of',
     'Township 154 North',            # a township whose range is still to come (or never comes)
     'Sec 14: NE/4, T154N',
+    'T154N-R97W of',                 # a Twp/Rge followed by the filler words that may lead up to a P.M. designation
+    'NE/4 of Section 14, Township 154 North, Range 97 West of the',
 ]
 # Tract-level pumping (the Tract sees its text raw: whitespace runs are not reduced as in a PLSSDesc)
 TRACT_PREFIXES = ['', 'N/2', 'N/2N/2NE/4 of', 'Lot 1', 'N/2 of Lot 1', 'N½' * 20 + ' of', 'NE']
